@@ -88,9 +88,9 @@ Proof.
     destruct d as [[[p2 x2] e]|].
     + apply andb_prop in Hd. destruct Hd as [Hp2 He]. apply eqb_true_l in Hp2.
       assert (Nx2 : x2 <> y) by (intros ->; apply Hn; right; right; now left).
-      rewrite (erase_rename_expr S b y e en He Hf);
-        [|intros X; apply Hn; right; right; right; apply in_or_app; left; exact X].
       rewrite (ren_env_cons S b y p f en Hp).
+      rewrite (erase_rename_expr S b y e _ He Hf2);
+        [|intros X; apply Hn; right; right; right; apply in_or_app; left; exact X].
       rewrite (ren_env_cons S b y p1 x1 _ Hp1).
       rewrite (ren_env_cons S b y p2 x2 _ Hp2).
       rewrite IHb, IHk; auto.
@@ -149,7 +149,7 @@ Proof.
   - apply in_app_or in H. destruct H as [H|H]; [eapply no_stale_expr; eauto|].
     eapply IHk; [|exact H]. now apply benv_cons.
   - destruct d as [[[q2 x2] e]|]; cbn [app] in H.
-    + apply in_app_or in H. destruct H as [H|H]; [eapply no_stale_expr; eauto|].
+    + apply in_app_or in H. destruct H as [H|H]; [eapply no_stale_expr; [|exact H]; now apply benv_cons|].
       apply in_app_or in H. destruct H as [H|H].
       * eapply IHb; [|exact H]. repeat apply benv_cons; auto.
       * eapply IHk; [|exact H]. now apply benv_cons.
@@ -279,7 +279,7 @@ Proof.
     rewrite (coincide_self _ _ _ H1), (agrees_occ_expr b L e en N3 H3), (IHk _ N4 H4). reflexivity.
   - set (enf := (f, p) :: en) in *.
     set (PD := match d with Some (p2, _, e) => p2 :: poss_expr e | None => [] end) in *.
-    set (OD := match d with Some (p2, _, e) => self b p2 ++ occ_expr b en e | None => [] end) in *.
+    set (OD := match d with Some (p2, _, e) => self b p2 ++ occ_expr b enf e | None => [] end) in *.
     set (inner := match d with None => (x1, p1) :: enf | Some (p2, x2, _) => (x2, p2) :: (x1, p1) :: enf end) in *.
     change (p :: p1 :: PD ++ poss body ++ poss k) with ([p] ++ ([p1] ++ (PD ++ (poss body ++ poss k)))) in *.
     assert (SD : forall q, In q OD -> In q PD).
@@ -301,9 +301,9 @@ Proof.
     cbn [andb]. rewrite !andb_true_r.
     subst PD OD. destruct d as [[[p2 x2] e]|]; [|reflexivity].
     change (p2 :: poss_expr e) with ([p2] ++ poss_expr e) in *.
-    destruct (coincide_split _ _ _ _ _ N5 (self_sub b p2) (occ_expr_sub b e en) H5) as [H9 H10].
+    destruct (coincide_split _ _ _ _ _ N5 (self_sub b p2) (occ_expr_sub b e _) H5) as [H9 H10].
     apply nodup_app_inv in N5. destruct N5 as [_ [N10 _]].
-    now rewrite (coincide_self _ _ _ H9), (agrees_occ_expr b L e en N10 H10).
+    now rewrite (coincide_self _ _ _ H9), (agrees_occ_expr b L e _ N10 H10).
   - destruct (coincide_split _ _ _ _ _ Hn (occ_expr_sub b e en) (occ_sub b k en) H) as [H1 H2].
     apply nodup_app_inv in Hn. destruct Hn as [N1 [N2 _]].
     now rewrite (agrees_occ_expr b L e en N1 H1), (IHk _ N2 H2).
